@@ -238,7 +238,8 @@ func (mm *MetricsSegmentMetadata) DownloadAndReadMNames() error {
 /*
 TODO: Use the buffer pools for such kinds of memory accesses, it will reduce GC pressures.
 */
-func ReadMetricNames(filePath string) (map[string]bool, error) {
+func ReadMetricNames(filePath string) (_ map[string]bool, retErr error) {
+	defer utils.RecoverToError(&retErr, "ReadMetricNames: "+filePath)
 
 	fd, err := os.OpenFile(filePath, os.O_RDONLY, 0644)
 	if err != nil {
